@@ -27,6 +27,7 @@ import (
 	"net/url"
 	"os"
 	"path"
+	"path/filepath"
 	"sort"
 	"strconv"
 	"strings"
@@ -614,7 +615,12 @@ func (b Browse) ServeArchive(w http.ResponseWriter, r *http.Request, dirPath str
 		}
 
 		if bc.Fs.IsHidden(info) {
-			return nil // Hidden files are not listed, so they are not archived either
+			// Hidden files are not listed, so they are not archived either,
+			// and neither is anything below a hidden directory
+			if info.IsDir() {
+				return filepath.SkipDir
+			}
+			return nil
 		}
 
 		var file io.ReadCloser
